@@ -31,6 +31,8 @@ Local Open Scope Z_scope.
 
 (* The calls each method makes, as the control skeleton below assumes them — the number of call
    sites of every store/heap method per Go function, regenerated from the source on every run.
+   Likewise the order of the statements the skeleton fixes (positions of the calls/assignments in
+   source order) and the statement skeleton of each function.
    [store_shape] is true exactly when the source still has this shape (CacheTheoremsS2.store_shape_ok,
    C08_store_shape: the obligation that breaks when a call is added, dropped or redirected). *)
 Definition store_shape : bool :=
@@ -48,7 +50,28 @@ Definition store_shape : bool :=
   (CacheLru.access_ncalls_Len =? 0) && (CacheLru.access_ncalls_Pop =? 0) &&
   (CacheLru.store_ncalls_Add =? 1) &&
   (CacheLru.lremove_ncalls_Remove =? 1) && (CacheLru.lremove_ncalls_delete =? 1) &&
-  (CacheLru.evict_ncalls_Pop =? 1) && (CacheLru.evict_ncalls_Remove =? 0) && (CacheLru.evict_ncalls_delete =? 1).
+  (CacheLru.evict_ncalls_Pop =? 1) && (CacheLru.evict_ncalls_Remove =? 0) && (CacheLru.evict_ncalls_delete =? 1) &&
+  (* the ORDER of the statements, as the skeleton below has it (positions in source order) *)
+  (* Put: Check < store.Remove < callback(replaced) < size -= < count-- < [loop: Evict < callback(victim) < count-- < size -=]
+          < Store < size += < count++ *)
+  (CacheIdx.put_ord_Check <? CacheIdx.put_ord_Remove) && (CacheIdx.put_ord_Remove <? CacheIdx.put_ord_onEvict0) &&
+  (CacheIdx.put_ord_onEvict0 <? CacheIdx.put_ord_size0) && (CacheIdx.put_ord_size0 <? CacheIdx.put_ord_count0) &&
+  (CacheIdx.put_ord_count0 <? CacheIdx.put_ord_Evict) && (CacheIdx.put_ord_Evict <? CacheIdx.put_ord_onEvict1) &&
+  (CacheIdx.put_ord_onEvict1 <? CacheIdx.put_ord_count1) && (CacheIdx.put_ord_count1 <? CacheIdx.put_ord_size1) &&
+  (CacheIdx.put_ord_size1 <? CacheIdx.put_ord_Store) && (CacheIdx.put_ord_Store <? CacheIdx.put_ord_size2) &&
+  (CacheIdx.put_ord_size2 <? CacheIdx.put_ord_count2) &&
+  (CacheIdx.remove_ord_Check <? CacheIdx.remove_ord_Remove) &&
+  (* Access: clock++ < heap Remove < stamp < Add;  Store: clock++ < Add;  Remove: heap Remove < delete;  Evict: Pop < delete *)
+  (CacheLru.access_ord_clock <? CacheLru.access_ord_Remove) && (CacheLru.access_ord_Remove <? CacheLru.access_ord_stamp) &&
+  (CacheLru.access_ord_stamp <? CacheLru.access_ord_Add) &&
+  (CacheLru.store_ord_clock <? CacheLru.store_ord_Add) &&
+  (CacheLru.lremove_ord_Remove <? CacheLru.lremove_ord_delete) &&
+  (CacheLru.evict_ord_Pop <? CacheLru.evict_ord_delete) &&
+  (* the statement skeletons (kind and nesting of every statement, in source order) *)
+  (CacheIdx.put_shape =? 4680571537014048427317646895503439) && (CacheIdx.remove_shape =? 64951855831600975) &&
+  (CacheIdx.clear_shape =? 1039256562410055423) && (CacheIdx.get_shape =? 945231) && (CacheIdx.has_shape =? 15123791) &&
+  (CacheLru.check_shape =? 984060589391) && (CacheLru.access_shape =? 4030712177317455) &&
+  (CacheLru.store_shape_ =? 967952008543) && (CacheLru.lremove_shape =? 3843974911) && (CacheLru.evict_shape =? 61503632975).
 
 Inductive panic_kind := PIndex | PEvictEmpty | PStorePresent | PClearCheck | PBadLimit.
 
